@@ -12,6 +12,7 @@ import (
 	"fmt"
 	"io"
 	"net"
+	"runtime"
 	"sync/atomic"
 	"time"
 
@@ -123,17 +124,20 @@ func verifC01NativeServer() string {
 						return
 					}
 					atomic.AddInt32(&VerifC01Requests, 1)
-					ctx := current.ContextWithTarsCurrent(context.Background())
-					current.SetRecvPkgTsFromContext(ctx, time.Now().UnixNano()/1e6)
-					rsp := verifC01Server.Invoke(ctx, pkg)
-					if pt, ok := current.GetPacketTypeFromContext(ctx); ok && pt == basef.TARSONEWAY {
-						continue
-					}
-					atomic.AddInt32(&VerifC01Replies, 1)
-					if _, err := conn.Write(rsp); err != nil {
-						fmt.Println("verif: native server write:", err)
-						return
-					}
+					// like the real tcpHandler: one goroutine per request, replies written as they complete
+					go func(pkg []byte) {
+						ctx := current.ContextWithTarsCurrent(context.Background())
+						current.SetRecvPkgTsFromContext(ctx, time.Now().UnixNano()/1e6)
+						rsp := verifC01Server.Invoke(ctx, pkg)
+						if pt, ok := current.GetPacketTypeFromContext(ctx); ok && pt == basef.TARSONEWAY {
+							return
+						}
+						atomic.AddInt32(&VerifC01Replies, 1)
+						runtime.Gosched() // (the real handler does more work between building and writing the reply)
+						if _, err := conn.Write(rsp); err != nil {
+							fmt.Println("verif: native server write:", err)
+						}
+					}(pkg)
 				}
 			}(conn)
 		}
